@@ -91,9 +91,11 @@ func (pv *ResponseBatchItem) TagDecodeTTLV(d *ttlv.Decoder, tag int) error {
 		if err := d.Opt(TagAsynchronousCorrelationValue, &pv.AsynchronousCorrelationValue); err != nil {
 			return err
 		}
-		if pv.Operation > 0 && d.Tag() == TagResponsePayload {
+		if d.Tag() == TagResponsePayload {
 			pv.ResponsePayload = newResponsePayload(pv.Operation)
-			return d.TagAny(TagResponsePayload, &pv.ResponsePayload)
+			if err := d.TagAny(TagResponsePayload, &pv.ResponsePayload); err != nil {
+				return err
+			}
 		}
 		return d.Opt(TagMessageExtension, &pv.MessageExtension)
 	})
